@@ -886,24 +886,27 @@ func (l *Lowerer) lowerGlobalVar(v *parser.VarDecl) error {
 	hasBinding := false
 	for _, attr := range v.Attributes {
 		if attr.Name == "group" && len(attr.Args) > 0 {
-			if lit, ok := attr.Args[0].(*parser.Literal); ok {
-				group, _ := parseAttrUint(lit.Value, 32)
-				if binding == nil {
-					binding = &ir.ResourceBinding{}
-				}
-				binding.Group = uint32(group)
-				hasGroup = true
+			// The argument is a const-expression: a literal or a module constant.
+			group, ok := l.evalConstU32Expr(attr.Args[0])
+			if !ok {
+				return fmt.Errorf("global var '%s': @group argument is not a constant u32 expression", v.Name)
 			}
+			if binding == nil {
+				binding = &ir.ResourceBinding{}
+			}
+			binding.Group = group
+			hasGroup = true
 		}
 		if attr.Name == "binding" && len(attr.Args) > 0 {
-			if lit, ok := attr.Args[0].(*parser.Literal); ok {
-				bind, _ := parseAttrUint(lit.Value, 32)
-				if binding == nil {
-					binding = &ir.ResourceBinding{}
-				}
-				binding.Binding = uint32(bind)
-				hasBinding = true
+			bind, ok := l.evalConstU32Expr(attr.Args[0])
+			if !ok {
+				return fmt.Errorf("global var '%s': @binding argument is not a constant u32 expression", v.Name)
 			}
+			if binding == nil {
+				binding = &ir.ResourceBinding{}
+			}
+			binding.Binding = bind
+			hasBinding = true
 		}
 	}
 
@@ -1106,11 +1109,10 @@ func (l *Lowerer) lowerOverride(o *parser.OverrideDecl) error {
 	var id *uint16
 	for _, attr := range o.Attributes {
 		if attr.Name == "id" && len(attr.Args) > 0 {
-			if lit, ok := attr.Args[0].(*parser.Literal); ok {
-				if idVal, parseErr := parseAttrUint(lit.Value, 16); parseErr == nil {
-					id16 := uint16(idVal)
-					id = &id16
-				}
+			// a const-expression: literal or module constant
+			if idVal, ok := l.evalConstU32Expr(attr.Args[0]); ok && idVal <= math.MaxUint16 {
+				id16 := uint16(idVal)
+				id = &id16
 			}
 		}
 	}
@@ -13351,6 +13353,11 @@ func (l *Lowerer) evalConstU32Expr(expr parser.Expr) (uint32, bool) {
 					return uint32(sv.Bits), true
 				}
 			}
+		}
+		// Untyped constants (const N = 16;) are kept outside module.Constants.
+		if info, ok := l.abstractConstants[e.Name]; ok && info.scalarValue != nil &&
+			info.scalarValue.Kind != ir.ScalarFloat && info.scalarValue.Bits <= math.MaxUint32 {
+			return uint32(info.scalarValue.Bits), true
 		}
 	case *parser.BinaryExpr:
 		left, okL := l.evalConstU32Expr(e.Left)
